@@ -1847,3 +1847,233 @@ pub fn c08(ix: &Index) -> Vec<Viol> {
     }
     out
 }
+
+// ---------------------------------------------------------------------------------------------
+// C09: overload degrades by omission only
+// ---------------------------------------------------------------------------------------------
+
+/// outcome of the first `submit` command issued by `vt` inside the operation interval
+fn submit_outcome(h: &Hist, vt: usize, t: (T, T)) -> Option<(bool, usize)> {
+    let mut it = h.hooks.iter().filter(|e| e.vt == Some(vt) && e.t > t.0 && e.t < t.1);
+    while let Some(e) = it.next() {
+        if let HookKind::Command { kind: "submit", .. } = e.kind {
+            let mut free = usize::MAX;
+            for e2 in it.by_ref() {
+                match e2.kind {
+                    HookKind::BeforePush { free: f, .. } => free = f,
+                    HookKind::PushOutcome { ok } => return Some((ok, free)),
+                    HookKind::Command { .. } => return None,
+                    _ => {}
+                }
+            }
+            return None;
+        }
+    }
+    None
+}
+
+fn start_outcome(h: &Hist, root: usize) -> Option<(bool, usize)> {
+    let r = &h.spans[root];
+    let mut it = h.hooks.iter().filter(|e| e.vt == Some(r.create_vt) && e.t > r.create_t.0 && e.t < r.create_t.1);
+    while let Some(e) = it.next() {
+        if let HookKind::Command { kind: "start", .. } = e.kind {
+            let mut free = usize::MAX;
+            for e2 in it.by_ref() {
+                match e2.kind {
+                    HookKind::BeforePush { free: f, .. } => free = f,
+                    HookKind::PushOutcome { ok } => return Some((ok, free)),
+                    _ => {}
+                }
+            }
+        }
+    }
+    None
+}
+
+/// the vthread exited while commands were still parked in its overflow list
+fn exited_with_parked(h: &Hist, vt: usize) -> bool {
+    let Some(ex) = h.vts[vt].exit_t else { return false };
+    // last BeforePush of the vthread tells how many commands were parked
+    let last = h.hooks.iter().rev().find(|e| e.vt == Some(vt) && e.t < ex.0 && matches!(e.kind, HookKind::BeforePush { .. }));
+    match last.map(|e| &e.kind) {
+        Some(HookKind::BeforePush { free, pending, .. }) => *free == 0 || *pending > 0,
+        _ => false,
+    }
+}
+
+pub fn c09(ix: &Index) -> Vec<Viol> {
+    let mut out = Vec::new();
+    let h = ix.h;
+    // (1) every call returns
+    for p in &h.panics {
+        out.push(v("C09", format!("panic:{}", p.op), format!("vt{}: {} panicked during an overload episode: {}", p.vt, p.op, p.msg)));
+    }
+    if names_ambiguous(h) {
+        return out;
+    }
+    // a send that fails although the ring has room
+    for w in h.hooks.windows(2) {
+        if let (HookKind::BeforePush { free, pending, .. }, HookKind::PushOutcome { ok: false }) = (&w[0].kind, &w[1].kind) {
+            if *free > 0 && *pending == 0 && w[0].vt == w[1].vt {
+                out.push(v("C09", "dropped-with-free-slots", format!("a command was dropped although {} slots were free", free)));
+            }
+        }
+    }
+    // (2) every delivered record is correct
+    out.extend(c02(ix, false).into_iter().map(|mut x| {
+        x.prop = "C09";
+        x.sig = format!("delivered-incorrect:{}", x.sig);
+        x
+    }));
+    out.extend(
+        c06(ix)
+            .into_iter()
+            .filter(|x| x.sig == "attached-to-wrong-record" || x.sig == "attachment-duplicated" || x.sig == "value-changed" || x.sig == "unknown-property" || x.sig == "unknown-event")
+            .map(|mut x| {
+                x.prop = "C09";
+                x.sig = format!("delivered-incorrect:{}", x.sig);
+                x
+            }),
+    );
+    // (3) missing is a subset of permitted
+    let mut unit_unstarted: HashSet<usize> = HashSet::new();
+    let mut unit_commit_lost: HashSet<usize> = HashSet::new();
+    for (u, r) in h.spans.iter().enumerate() {
+        if !r.is_root || r.noop || !r.items[0].sampled {
+            continue;
+        }
+        if let Some((false, free)) = start_outcome(h, u) {
+            if free == 0 || free == usize::MAX {
+                unit_unstarted.insert(u);
+            }
+        }
+        if let (Some(fvt), Some(_)) = (r.finish_vt, r.finish_t) {
+            if exited_with_parked(h, fvt) {
+                unit_commit_lost.insert(u);
+            }
+        }
+        for cv in &r.cancel_vt {
+            if exited_with_parked(h, *cv) {
+                unit_commit_lost.insert(u);
+            }
+        }
+    }
+    let exempt = |e: &Exp| -> bool {
+        let vt = src_vt(h, e.src).unwrap_or(usize::MAX);
+        if vt == usize::MAX {
+            return true;
+        }
+        match submit_outcome(h, vt, e.fin) {
+            Some((false, _)) => true,
+            Some((true, _)) => false,
+            None => true, // no submit observed (e.g. issued during a fill): do not demand it
+        }
+    };
+    // per (name, trace): demanded <= delivered <= possible
+    let mut demand: BTreeMap<(&str, u128), (usize, usize)> = BTreeMap::new();
+    for e in &ix.exps {
+        let ent = demand.entry((e.name.as_str(), e.trace)).or_insert((0, 0));
+        ent.1 += 1;
+        let root = &h.spans[e.unit];
+        let mut must = !exempt(e);
+        if h.cancelable {
+            let cancelled = ix.root_cancelled(e.unit);
+            let before_root = e.src == Src::Span(e.unit) || root.finish_t.map_or(false, |rf| e.fin.1 < rf.0);
+            let mvt = src_vt(h, e.src).unwrap_or(usize::MAX);
+            if cancelled
+                || !before_root
+                || unit_unstarted.contains(&e.unit)
+                || unit_commit_lost.contains(&e.unit)
+                || inconsistent_cut_possible(h, e.unit, Some((mvt, e.fin)))
+                || root.finish_vt.map_or(true, |fv| submit_outcome(h, fv, root.finish_t.unwrap_or((0, 0))).map_or(true, |o| !o.0) && false)
+            {
+                must = false;
+            }
+        }
+        if must {
+            ent.0 += 1;
+        }
+    }
+    for ((name, trace), (must, possible)) in &demand {
+        let got = ix.by_name.get(name).map(|rs| rs.iter().filter(|r| r.1.trace_id.0 == *trace).count()).unwrap_or(0);
+        if got < *must {
+            out.push(v(
+                "C09",
+                "missing-not-permitted",
+                format!("record {:?} of trace {:#x}: {} copies were submitted successfully (queue not full) but only {} delivered", name, trace, must, got),
+            ));
+        }
+        if got > *possible {
+            out.push(v("C09", "delivered-more-than-recorded", format!("record {:?} of trace {:#x} delivered {} times, recorded {}", name, trace, got, possible)));
+        }
+    }
+    for (name, recs) in &ix.by_name {
+        if !ix.exp_by_name.contains_key(*name) && !name.starts_with("fill-") && *name != "f" {
+            out.push(v("C09", "delivered-unknown", format!("record {:?} ({} copies) corresponds to nothing the program recorded", name, recs.len())));
+        }
+    }
+    // (4) finish / cancel signals are neither dropped nor reordered while the thread lives
+    let mut issued: HashMap<usize, Vec<(&'static str, usize)>> = HashMap::new();
+    for e in &h.hooks {
+        if let (HookKind::Command { kind, ids, force: true }, Some(vt)) = (&e.kind, e.vt) {
+            if ids[0] != usize::MAX {
+                issued.entry(vt).or_default().push((kind, ids[0]));
+            }
+        }
+    }
+    // ring of every vthread, learned from its own pushes
+    let mut ring_of: HashMap<usize, usize> = HashMap::new();
+    for e in &h.hooks {
+        if let (HookKind::BeforePush { ring, .. }, Some(vt)) = (&e.kind, e.vt) {
+            ring_of.entry(vt).or_insert(*ring);
+        }
+    }
+    for (vt, seq) in &issued {
+        let Some(ring) = ring_of.get(vt) else { continue };
+        let received: Vec<(&'static str, usize)> = h
+            .hooks
+            .iter()
+            .filter_map(|e| match &e.kind {
+                HookKind::Received { kind, ids, ring: r } if r == ring && (*kind == "commit" || *kind == "drop") && ids[0] != usize::MAX => Some((*kind, ids[0])),
+                _ => None,
+            })
+            .collect();
+        let lost_ok = exited_with_parked(h, *vt);
+        // what arrived must be a prefix-preserving copy of what was issued: equal, or (when the
+        // thread exited with parked commands) a prefix of it
+        let n = received.len().min(seq.len());
+        if received[..n] != seq[..n] || received.len() > seq.len() {
+            out.push(v(
+                "C09",
+                "signal-reordered",
+                format!("vt{}: finish/cancel signals were issued as {:?} but reached the collector as {:?}", vt, seq, received),
+            ));
+        } else if received.len() < seq.len() && !lost_ok {
+            out.push(v(
+                "C09",
+                "signal-lost",
+                format!("vt{}: finish/cancel signals {:?} were issued but only {:?} reached the collector although the thread did not exit with a full queue", vt, seq, received),
+            ));
+        }
+    }
+    // cancel-then-finish never delivers
+    if h.cancelable {
+        // (a cancel parked in the overflow list of a thread that then exits is outside "while the
+        // thread lives"; that loss is C04's known finding)
+        for x in c04(ix).into_iter().filter(|x| x.sig.starts_with("cancelled-trace-delivered") && !x.sig.ends_with("exit-with-full-queue")) {
+            let mut x = x;
+            x.prop = "C09";
+            out.push(x);
+        }
+    }
+    // retained state returns to zero unless a finish/cancel signal was legitimately lost
+    if unit_commit_lost.is_empty() {
+        for s in h.stats.iter().filter(|s| s.final_) {
+            let leak_shape = c08(ix).iter().any(|x| x.sig.ends_with("start-after-commit"));
+            if (s.s.active_collectors != 0 || s.s.buffered_span_sets != 0) && !leak_shape && unit_unstarted.is_empty() {
+                out.push(v("C09", "state-retained-after-recovery", format!("after recovery and quiescence the collector still holds {:?}", s.s)));
+            }
+        }
+    }
+    out
+}
